@@ -544,3 +544,17 @@ Fixpoint fields_walk (prev : list Z) (vds : list (list (list Z))) (chosen : list
   | fields :: r => let ix := field_indices prev fields chosen in
                    (match chosen_indices 0 fields chosen with [] => [] | _ => ix end) :: fields_walk ix r chosen
   end.
+
+(* ------------------------------------------------------------------------------------------ *)
+(** * Round 4: Vdata interlace, attribute Vdatas, the attribute information test *)
+
+(** vdata_cmp reads both Vdatas (interlaces checked equal before) and compares the buffers byte for byte: the two
+    reads must ask for the same layout (regenerated: the interlace argument of each VSread) *)
+Definition vs_buffers_same_layout (il : Z) : bool := vs_read_il1 il =? vs_read_il2 il.
+
+(** insert_vs: `if (is_lone == 1 && vdata_class[0] <op> '\0') { if (is_reserved(vdata_class)) skip }`.  Which
+    comparison guards the reserved-class test is regenerated.  An empty class is never reserved, so with `== '\0'`
+    the block never fires and lone Vdatas of class Attr0.0 -- the storage of Vdata / Vgroup attributes -- stay in
+    the object table: that is the only way their values get compared. *)
+Definition insert_vs_skips (is_lone class_nonempty reserved : bool) : bool :=
+  is_lone && (if insert_vs_reserved_test_needs_empty_class =? 0 then class_nonempty else negb class_nonempty) && reserved.
